@@ -181,4 +181,152 @@ def reconfigure {G E : Type} (run : EngineState G → Except E (EngineState G)) 
           axisCount := s1.axisCount
           maxStack := s1.maxStack }
 
+/-! ## the public `HintingInstance` around it (skrifa/src/outline/hint.rs) -/
+
+/-- `HintingInstance { size, coords, target, kind }`; `kind`: `none` ≙ `HinterKind::None`, `some i` ≙
+`HinterKind::Glyf(i)` (the CFF and autohinting kinds are rebuilt from scratch by `reconfigure`) -/
+structure Outer (G : Type) where
+  size : Int
+  coords : List Int
+  target : Nat
+  kind : Option (Inst G)
+
+/-- `match current_kind { HinterKind::Glyf(instance) => instance, _ => Box::default() }` -/
+def Outer.inst {G : Type} (o : Outer G) (fresh : Inst G) : Inst G :=
+  match o.kind with
+  | some i => i
+  | none => fresh
+
+/-- `HintingInstance::reconfigure` for a `glyf` collection and `Engine::Interpreter`: the three scalar
+fields are overwritten first (`coords` with the *effective* coordinates), the old kind is moved out,
+its `glyf::HintInstance` (or a default one) is reconfigured; on error `kind` stays `None`. -/
+def outerReconfigure {G E : Type} (run : EngineState G → Except E (EngineState G)) (fresh : Inst G)
+    (o : Outer G) (size : Int) (coords : List Int) (target : Nat) (c : Cfg G) : Outer G × Option E :=
+  match reconfigure run (o.inst fresh) c with
+  | .error e => ({ size := size, coords := coords, target := target, kind := none }, some e)
+  | .ok i => ({ size := size, coords := coords, target := target, kind := some i }, none)
+
+/-! ## every piece of state on the reconfigure / draw path and where it is (re)initialised
+
+The same table is re-extracted from hint.rs, hint/instance.rs, hint/engine/{mod, dispatch}.rs,
+hint/{graphics, value_stack, program, cow_slice, zone}.rs by translate/c12_wbr.py on every run.
+`ctor`: named in the struct literal of the constructor that runs for every draw (`Engine::new` is
+called by `HintInstance::hint`, which takes `&self`); `default`: filled by `..Default::default()` there. -/
+def persistModel : List (String × String × String × String) :=
+  [("HintingInstance", "size", "assign", "HintingInstance::reconfigure"),
+   ("HintingInstance", "coords", "clear+extend", "HintingInstance::reconfigure"),
+   ("HintingInstance", "target", "assign", "HintingInstance::reconfigure"),
+   ("HintingInstance", "kind", "replace-none+assign", "HintingInstance::reconfigure"),
+   ("HintInstance", "functions", "clear+resize", "HintInstance::setup"),
+   ("HintInstance", "instructions", "resize", "HintInstance::setup"),
+   ("HintInstance", "cvt", "clear+fill", "HintInstance::setup"),
+   ("HintInstance", "storage", "clear+resize", "HintInstance::setup"),
+   ("HintInstance", "graphics", "assign", "HintInstance::setup"),
+   ("HintInstance", "twilight_scaled", "clear+resize", "HintInstance::setup"),
+   ("HintInstance", "twilight_original_scaled", "clear+resize", "HintInstance::setup"),
+   ("HintInstance", "twilight_flags", "clear+resize", "HintInstance::setup"),
+   ("HintInstance", "axis_count", "assign", "HintInstance::setup"),
+   ("HintInstance", "max_stack", "assign", "HintInstance::setup"),
+   ("Engine::reset(Font)", "definitions.functions", "reset", "Engine::reset"),
+   ("Engine::reset(Font)", "definitions.instructions", "reset", "Engine::reset"),
+   ("Engine", "program", "ctor", "Engine::new"),
+   ("Engine", "graphics", "ctor", "Engine::new"),
+   ("Engine", "definitions", "ctor", "Engine::new"),
+   ("Engine", "cvt", "ctor", "Engine::new"),
+   ("Engine", "storage", "ctor", "Engine::new"),
+   ("Engine", "value_stack", "ctor", "Engine::new"),
+   ("Engine", "loop_budget", "ctor", "Engine::new"),
+   ("Engine", "axis_count", "ctor", "Engine::new"),
+   ("Engine", "coords", "ctor", "Engine::new"),
+   ("GraphicsState", "retained", "ctor", "Engine::new"),
+   ("GraphicsState", "proj_vector", "default", "Engine::new"),
+   ("GraphicsState", "proj_axis", "default", "Engine::new"),
+   ("GraphicsState", "dual_proj_vector", "default", "Engine::new"),
+   ("GraphicsState", "dual_proj_axis", "default", "Engine::new"),
+   ("GraphicsState", "freedom_vector", "default", "Engine::new"),
+   ("GraphicsState", "freedom_axis", "default", "Engine::new"),
+   ("GraphicsState", "fdotp", "default", "Engine::new"),
+   ("GraphicsState", "round_state", "default", "Engine::new"),
+   ("GraphicsState", "rp0", "default", "Engine::new"),
+   ("GraphicsState", "rp1", "default", "Engine::new"),
+   ("GraphicsState", "rp2", "default", "Engine::new"),
+   ("GraphicsState", "loop_counter", "default", "Engine::new"),
+   ("GraphicsState", "zp0", "default", "Engine::new"),
+   ("GraphicsState", "zp1", "default", "Engine::new"),
+   ("GraphicsState", "zp2", "default", "Engine::new"),
+   ("GraphicsState", "zones", "ctor", "Engine::new"),
+   ("GraphicsState", "is_composite", "ctor", "Engine::new"),
+   ("GraphicsState", "backward_compatibility", "default", "Engine::new"),
+   ("GraphicsState", "is_pedantic", "default", "Engine::new"),
+   ("GraphicsState", "did_iup_x", "default", "Engine::new"),
+   ("GraphicsState", "did_iup_y", "default", "Engine::new"),
+   ("GraphicsState::reset", "retained", "kept", "GraphicsState::reset"),
+   ("GraphicsState::reset", "zones", "kept", "GraphicsState::reset"),
+   ("GraphicsState::reset", "is_composite", "kept", "GraphicsState::reset"),
+   ("RetainedGraphicsState", "auto_flip", "default", "RetainedGraphicsState::new"),
+   ("RetainedGraphicsState", "control_value_cutin", "default", "RetainedGraphicsState::new"),
+   ("RetainedGraphicsState", "delta_base", "default", "RetainedGraphicsState::new"),
+   ("RetainedGraphicsState", "delta_shift", "default", "RetainedGraphicsState::new"),
+   ("RetainedGraphicsState", "instruct_control", "default", "RetainedGraphicsState::new"),
+   ("RetainedGraphicsState", "min_distance", "default", "RetainedGraphicsState::new"),
+   ("RetainedGraphicsState", "scan_control", "default", "RetainedGraphicsState::new"),
+   ("RetainedGraphicsState", "scan_type", "default", "RetainedGraphicsState::new"),
+   ("RetainedGraphicsState", "single_width_cutin", "default", "RetainedGraphicsState::new"),
+   ("RetainedGraphicsState", "single_width", "default", "RetainedGraphicsState::new"),
+   ("RetainedGraphicsState", "target", "ctor", "RetainedGraphicsState::new"),
+   ("RetainedGraphicsState", "scale", "ctor", "RetainedGraphicsState::new"),
+   ("RetainedGraphicsState", "ppem", "ctor", "RetainedGraphicsState::new"),
+   ("RetainedGraphicsState", "is_rotated", "default", "RetainedGraphicsState::new"),
+   ("RetainedGraphicsState", "is_stretched", "default", "RetainedGraphicsState::new"),
+   ("Engine::reset", "program", "reset", "Engine::reset"),
+   ("Engine::reset", "graphics", "reset", "Engine::reset"),
+   ("Engine::reset", "graphics.is_pedantic", "reset", "Engine::reset"),
+   ("Engine::reset", "loop_budget", "reset", "Engine::reset"),
+   ("Engine::reset(ControlValue)", "graphics.backward_compatibility", "assign", "Engine::reset"),
+   ("Engine::reset(Glyph)", "graphics.backward_compatibility", "assign", "Engine::reset"),
+   ("Engine::reset(Glyph)", "graphics.retained", "reset-if-instruct-control-bit-1", "Engine::reset"),
+   ("ValueStack", "values", "ctor", "ValueStack::new"),
+   ("ValueStack", "len", "ctor", "ValueStack::new"),
+   ("ValueStack", "is_pedantic", "ctor", "ValueStack::new"),
+   ("ProgramState", "bytecode", "ctor", "ProgramState::new"),
+   ("ProgramState", "initial", "ctor", "ProgramState::new"),
+   ("ProgramState", "current", "ctor", "ProgramState::new"),
+   ("ProgramState", "decoder", "ctor", "ProgramState::new"),
+   ("ProgramState", "call_stack", "ctor", "ProgramState::new"),
+   ("LoopBudget", "limit", "ctor", "LoopBudget::new"),
+   ("LoopBudget", "backward_jumps", "ctor", "LoopBudget::new"),
+   ("LoopBudget", "loop_calls", "ctor", "LoopBudget::new"),
+   ("CowSlice", "data", "ctor", "CowSlice::new"),
+   ("CowSlice", "data_mut", "ctor", "CowSlice::new"),
+   ("CowSlice", "use_mut", "ctor", "CowSlice::new"),
+   ("Zone", "unscaled", "ctor", "Zone::new"),
+   ("Zone", "original", "ctor", "Zone::new"),
+   ("Zone", "points", "ctor", "Zone::new"),
+   ("Zone", "flags", "ctor", "Zone::new"),
+   ("Zone", "contours", "ctor", "Zone::new")]
+
+/-- structs that live across draws (their fields must be re-derived by `reconfigure`) -/
+def persistentStructs : List String := ["HintingInstance", "HintInstance"]
+/-- structs constructed for every draw / every program run -/
+def perDrawStructs : List String :=
+  ["Engine", "GraphicsState", "RetainedGraphicsState", "ValueStack", "ProgramState", "LoopBudget", "CowSlice", "Zone"]
+
+/-- no field survives: a persistent field is overwritten without looking at its old value (or only
+resized and then wiped by the font-program reset); a per-draw field is named in the constructor or
+filled from `Default`; the per-run resets are present -/
+def persistComplete (t : List (String × String × String × String)) : Bool :=
+  let fontReset := (t.filter (fun r => r.1 == "Engine::reset(Font)" && r.2.2.1 == "reset")).map (fun r => r.2.1)
+  t.all (fun r =>
+    if persistentStructs.contains r.1 then
+      ["assign", "clear+extend", "replace-none+assign", "clear+resize", "clear+fill"].contains r.2.2.1 ||
+      (r.2.2.1 == "resize" && fontReset.contains ("definitions." ++ r.2.1))
+    else if perDrawStructs.contains r.1 then r.2.2.1 == "ctor" || r.2.2.1 == "default"
+    else ["reset", "assign", "kept", "reset-if-instruct-control-bit-1"].contains r.2.2.1) &&
+  -- the value stack starts empty, whatever the buffer holds
+  t.contains ("ValueStack", "len", "ctor", "ValueStack::new") &&
+  -- is_pedantic and backward_compatibility are set for every program run
+  t.contains ("Engine::reset", "graphics.is_pedantic", "reset", "Engine::reset") &&
+  t.contains ("Engine::reset(ControlValue)", "graphics.backward_compatibility", "assign", "Engine::reset") &&
+  t.contains ("Engine::reset(Glyph)", "graphics.backward_compatibility", "assign", "Engine::reset")
+
 end FontVerif.HintState
